@@ -34,16 +34,77 @@ WATCHDOG_S = 10.0
 
 
 # ------------------------------------------------------------------------------------------ dynamic echo service
-def _fn(name: str, dx: bool, second: bool, dy: bool, echo: bool, ann_x, ann_y, vdx, vdy, sink):
-    params = "x=_dx" if dx else "x"
+def _fn(name: str, dx: bool, second: bool, dy: bool, echo: bool, ann_x, ann_y, vdx, vdy, sink, kind: str = "echo", ret_ann=None,
+        extra: dict | None = None):
+    """kind: echo (x -> x) | void (x -> None) | result_only (() -> fixed value) | stream (x -> Stream[State, Header])"""
+    params = "" if kind == "result_only" else ("x=_dx" if dx else "x")
     if second:
         params += ", y=_dy" if dy else ", y"
-    body = "    _sink(%r, x, %s)\n    return x\n" % (name, "y" if second else "None") if echo else "    ...\n"
-    g = {"_dx": vdx, "_dy": vdy, "_sink": sink}
-    exec(f"def {name}(self, {params}):\n{body}", g)  # noqa: S102
+    if not echo:
+        body = "    ...\n"
+    elif kind == "void":
+        body = "    _sink(%r, x, None)\n    return None\n" % name
+    elif kind == "result_only":
+        body = "    _sink(%r, None, None)\n    return _dx\n" % name
+    elif kind == "stream":
+        body = ("    _sink(%r, x, None)\n"
+                "    return _Stream(output_schema=_OUT, state=_State(v=x), header=_mkh(x), call_state=_mkc(x))\n" % name)
+    else:
+        body = "    _sink(%r, x, %s)\n    return x\n" % (name, "y" if second else "None")
+    g = {"_dx": vdx, "_dy": vdy, "_sink": sink, **(extra or {})}
+    exec(f"def {name}(self{', ' if params else ''}{params}):\n{body}", g)  # noqa: S102
     f = g[name]
-    f.__annotations__ = {"x": ann_x, **({"y": ann_y} if second else {}), "return": ann_x}
+    ann = {} if kind == "result_only" else {"x": ann_x}
+    if second:
+        ann["y"] = ann_y
+    ann["return"] = type(None) if kind == "void" else (ret_ann if ret_ann is not None else ann_x)
+    f.__annotations__ = ann
     return f
+
+
+_MISSING = object()
+_STREAM_CLS: dict = {}
+STREAM_TICKS = 3
+
+
+def stream_classes(term: tuple, seen: dict):
+    """Header / call-state / producer-state dataclasses whose field `v` has the term's type.  produce() records the
+    value the state holds (and the bound call state's) on every turn -- over HTTP every turn re-reads both from
+    their tokens."""
+    if term in _STREAM_CLS:
+        return _STREAM_CLS[term]
+    from dataclasses import field, make_dataclass
+    from typing import ClassVar
+
+    from vgi_rpc.rpc import ProducerState
+    from vgi_rpc.utils import ArrowSerializableDataclass
+
+    ann = T.annotation(term)
+    tag = "_".join(term)
+    bare = term == ("dc0",)     # the value *is* the header / the call state: a header dataclass without any field
+    if bare:
+        header = call = T.D0
+    else:
+        header = make_dataclass("H_" + tag, [("v", ann)], bases=(ArrowSerializableDataclass,), frozen=True)
+        call = make_dataclass("K_" + tag, [("v", ann)], bases=(ArrowSerializableDataclass,), frozen=True)
+
+    def bind_call_state(self, cs):
+        self.__dict__["_cs"] = cs
+
+    def produce(self, out, ctx):
+        cs = self.__dict__.get("_cs")
+        seen.setdefault(tag, []).append((self.n, self.v, (cs if bare else cs.v) if cs is not None else _MISSING))
+        if self.n >= STREAM_TICKS:
+            out.finish()
+            return
+        out.emit_pydict({"i": [self.n]})
+        self.n += 1
+
+    state = make_dataclass("S_" + tag, [("v", ann), ("n", int, field(default=0)), ("CALL_STATE_TYPE", ClassVar[type], call)],
+                           bases=(ProducerState,), namespace={"produce": produce, "bind_call_state": bind_call_state})
+    _ = header.ARROW_SCHEMA, call.ARROW_SCHEMA, state.ARROW_SCHEMA
+    _STREAM_CLS[term] = (header, call, state, tag)
+    return _STREAM_CLS[term]
 
 
 class Service:
@@ -54,12 +115,15 @@ class Service:
         self.proto_ns: dict = {}
         self.impl_ns: dict = {}
         self.received: dict = {}
+        self.stream_seen: dict = {}
+        self.stream_tag: dict = {}
+        self.stream_bare: dict = {}
 
     def _sink(self, name, x, y):
         self.received[name] = (x, y)
 
-    def method(self, term: tuple, second: str, dflt: str, vdx, vdy, tag) -> str:
-        key = (term, second, dflt, tag)
+    def method(self, term: tuple, second: str, dflt: str, vdx, vdy, tag, pos: str = "unary") -> str:
+        key = (term, second, dflt, tag, pos)
         name = self.methods.get(key)
         if name is None:
             name = f"m{len(self.methods)}"
@@ -67,14 +131,38 @@ class Service:
             ann_x = T.annotation(term)
             ann_y = {"-": None, "int": int, "ostr": Optional[str]}[second]
             dx, dy = dflt in ("first", "both"), dflt in ("second", "both")
-            self.proto_ns[name] = _fn(name, dx, second != "-", dy, False, ann_x, ann_y, vdx, vdy, None)
-            self.impl_ns[name] = _fn(name, dx, second != "-", dy, True, ann_x, ann_y, vdx, vdy, self._sink)
+            kind = "stream" if pos == "stream" else (dflt if dflt in ("void", "result_only") else "echo")
+            extra, ret_p, ret_i = None, None, None
+            if kind == "stream":
+                import pyarrow as pa
+
+                from vgi_rpc.rpc import ProducerState, Stream
+
+                header, call, state, stag = stream_classes(term, self.stream_seen)
+                self.stream_tag[name] = stag
+                bare = header is T.D0
+                self.stream_bare[name] = bare
+                extra = {"_Stream": Stream, "_OUT": pa.schema([pa.field("i", pa.int64())]), "_State": state,
+                         "_mkh": (lambda x: x) if bare else (lambda x: header(v=x)), "_mkc": (lambda x: x) if bare else (lambda x: call(v=x))}
+                ret_p, ret_i = Stream[ProducerState, header], Stream[state, header]
+            self.proto_ns[name] = _fn(name, dx, second != "-", dy, False, ann_x, ann_y, vdx, vdy, None, kind, ret_p)
+            self.impl_ns[name] = _fn(name, dx, second != "-", dy, True, ann_x, ann_y, vdx, vdy, self._sink, kind, ret_i, extra)
         return name
 
     def build(self):
         proto = types.new_class("EchoSvc", (Protocol,), {}, lambda d: d.update(self.proto_ns))
         impl = type("EchoImpl", (), dict(self.impl_ns))()
         return proto, impl
+
+
+def invoke(proxy, name: str, kwargs: dict, stream: bool):
+    """unary: the returned value.  stream: (header, number of batches) after draining the producer stream."""
+    if not stream:
+        return getattr(proxy, name)(**kwargs)
+    sess = getattr(proxy, name)(**kwargs)
+    header = sess.header
+    n = sum(1 for _ in sess)
+    return (header, n)
 
 
 class PipeLink:
@@ -115,18 +203,18 @@ class PipeLink:
             item = q_in.get()
             if item is None:
                 return
-            name, kwargs = item
+            name, kwargs, stream = item
             try:
-                q_out.put(("ok", getattr(proxy, name)(**kwargs)))
+                q_out.put(("ok", invoke(proxy, name, kwargs, stream)))
             except BaseException as e:  # noqa: BLE001
                 q_out.put(("err", e))
 
     LOCAL_ERRORS = (OverflowError, TypeError, ValueError, UnicodeError, KeyError, AttributeError)
 
-    def call(self, name: str, kwargs: dict):
+    def call(self, name: str, kwargs: dict, stream: bool = False):
         import pyarrow as pa
 
-        self.q_in.put((name, kwargs))
+        self.q_in.put((name, kwargs, stream))
         try:
             res = self.q_out.get(timeout=WATCHDOG_S)
         except queue.Empty:
@@ -178,9 +266,9 @@ class HttpLink:
         self.cm = http_connect(proto, client=self.client)
         self.proxy = self.cm.__enter__()
 
-    def call(self, name: str, kwargs: dict):
+    def call(self, name: str, kwargs: dict, stream: bool = False):
         try:
-            return ("ok", getattr(self.proxy, name)(**kwargs))
+            return ("ok", invoke(self.proxy, name, kwargs, stream))
         except BaseException as e:  # noqa: BLE001
             return ("err", e)
 
@@ -224,10 +312,10 @@ def run(ctx: Ctx) -> None:
                "(list[Enum], dict[Enum, V], dict[K, Enum]) is treated as outside 'lists, maps and sets of scalars' and is not "
                "generated (observed by hand: such calls raise ArrowTypeError on the client, never a changed value); below a "
                "dataclass the dataclass grammar applies (C03's known set/map conversion defect is matched by the same family key)")
-    scalars = [x for x in ALL_LEAVES if x not in ("schema", "batch")]
+    scalars = [x for x in ALL_LEAVES if x not in ("schema", "batch", "custom")]
     deep = ["int", "u64", "f32", "str", "bytes", "enum", "senum", "ienum", "dec", "ts_us", "schema"] if quick else ALL_LEAVES[:-2]
     runs = [("depth2", {"Mode": "rpc", "MaxDepth": 2, "Ctors": sset(ALL_CTORS), "Leaves": sset(ALL_LEAVES), "DeepLeaves": sset(deep),
-                        "SigLeaves": sset(["int", "f32", "str", "enum", "senum", "menum", "ienum"] if quick else scalars[:-2]), "Variants": sset(["plain"])})]
+                        "SigLeaves": sset(["int", "f32", "str", "enum", "senum", "menum", "ienum", "nt_bytes", "dc0", "ts_us"] if quick else scalars[:-2]), "Variants": sset(["plain"])})]
     if not quick:
         d3 = ["int", "enum", "str", "f32", "dec"]
         runs.append(("depth3", {"Mode": "rpc", "MaxDepth": 3, "Ctors": sset(["opt", "list", "set", "map_str", "dc"]),
@@ -238,7 +326,7 @@ def run(ctx: Ctx) -> None:
         cs = table.enumerate_cases(ctx, "data", "TypeGrammar", constants=consts, invariants=INV, name=f"TypeGrammar:rpc:{name}")
         for cj in cs:
             c = cj["case"]
-            key = (tuple(c["t"]), c["shape"], c["k"], c["second"], c["dflt"])
+            key = (tuple(c["t"]), c["shape"], c["k"], c["second"], c["dflt"], c["pos"])
             if key not in seen:
                 seen.add(key)
                 plan.append((name, consts, c, cj["exp"]))
@@ -274,6 +362,22 @@ def run(ctx: Ctx) -> None:
         for vi, v in enumerate(vals):
             dx = dflt in ("first", "both")
             dy = dflt in ("second", "both")
+            if c["pos"] == "stream":
+                try:
+                    mname = svc.method(term, second, dflt, None, yd, None, "stream")
+                except Exception as e:  # noqa: BLE001  (state/header/call-state classes could not be defined)
+                    obs_by_run[rname].append(_o(c, "define", "def_error", False, {"error": f"{type(e).__name__}: {str(e)[:160]}", "expected": exp}))
+                    break
+                calls.append((pi, rname, mname, {"x": v}, (v, None), "stream"))
+                continue
+            if dflt == "void":
+                mname = svc.method(term, second, dflt, None, yd, None)
+                calls.append((pi, rname, mname, {"x": v}, (v, None), "void"))
+                continue
+            if dflt == "result_only":
+                mname = svc.method(term, second, dflt, v, yd, (c["shape"], c["k"], vi))
+                calls.append((pi, rname, mname, {}, (v, None), "result_only"))
+                continue
             mname = svc.method(term, second, dflt, v if dx else None, yd, (c["shape"], c["k"], vi) if dx else None)
             forms = [("explicit", {"x": v, **({"y": yv} if second != "-" else {})}, (v, yv if second != "-" else None))]
             if dx:
@@ -300,26 +404,50 @@ def run(ctx: Ctx) -> None:
             _, _, c, exp = plan[pi]
             term = tuple(c["t"])
             for tname, link in (("pipe", pipe), ("http", http)):
+                is_stream = form == "stream"
+                stag = svc.stream_tag.get(mname)
                 svc.received.pop(mname, None)
-                status, res = link.call(mname, dict(kwargs))
+                svc.stream_seen.pop(stag, None)
+                status, res = link.call(mname, dict(kwargs), is_stream)
                 if status == "hang":
                     # confirm on the fresh connection: a first hang can be the tail of an earlier call's undetected
                     # serve-loop death; only a call that hangs again on a new connection counts
                     svc.received.pop(mname, None)
-                    status, res = link.call(mname, dict(kwargs))
+                    svc.stream_seen.pop(stag, None)
+                    status, res = link.call(mname, dict(kwargs), is_stream)
                 nearest = False
                 detail = {"transport": tname, "form": form, "method": mname, "sent": T.show(kwargs), "expected": exp}
-                if status == "ok":
+                if status == "ok" and is_stream:
+                    # one-way observations at four positions: the stream method's parameter, the header the client got,
+                    # the state field and the call-state field as every produce() turn saw them
                     recv = svc.received.get(mname)
-                    ret_ok = T.same(res, want[0])
-                    recv_ok = recv is not None and T.same(recv[0], want[0]) and T.same(recv[1], want[1])
+                    turns = svc.stream_seen.get(stag, [])
+                    header, nb = res
+                    got = {"param": [recv[0]] if recv is not None else [], "header": [header if svc.stream_bare.get(mname) else getattr(header, "v", _MISSING)],
+                           "state": [t[1] for t in turns], "call_state": [t[2] for t in turns if t[2] is not _MISSING]}
+                    complete = recv is not None and nb == STREAM_TICKS and len(turns) == STREAM_TICKS + 1
+                    bad_pos = [k for k, vs in got.items() if not all(T.same(x, want[0]) for x in vs)]
+                    if complete and not bad_pos and (tname == "pipe" or got["call_state"]):
+                        outcome = "equal"
+                    else:
+                        outcome = "changed"
+                        detail.update({"positions_changed": bad_pos, "batches": nb, "turns": len(turns),
+                                       "got": {k: T.show(vs, 120) for k, vs in got.items() if k in bad_pos}})
+                        nearest = complete and all(_nearest_ok(term, want[0], x) or T.same(x, want[0]) for vs in got.values() for x in vs)
+                        if nearest:
+                            narrowing_seen += 1
+                elif status == "ok":
+                    recv = svc.received.get(mname)
+                    ret_ok = T.same(res, None if form == "void" else want[0])
+                    recv_ok = recv is not None and (form == "result_only" or (T.same(recv[0], want[0]) and T.same(recv[1], want[1])))
                     if ret_ok and recv_ok:
                         outcome = "equal"
                     else:
                         outcome = "changed"
                         detail.update({"returned": T.show(res), "received": T.show(recv)})
-                        nearest = (_nearest_ok(term, want[0], res) and recv is not None and _nearest_ok(term, want[0], recv[0])
-                                   and T.same(recv[1], want[1]))
+                        near = lambda x: _nearest_ok(term, want[0], x) or T.same(x, want[0])  # noqa: E731
+                        nearest = (recv is not None and (form == "void" or near(res)) and (form == "result_only" or near(recv[0]))
+                                   and (form == "result_only" or T.same(recv[1], want[1])) and (form != "void" or res is None))
                         if nearest:
                             narrowing_seen += 1
                 elif status == "hang":
@@ -362,7 +490,7 @@ def run(ctx: Ctx) -> None:
                 key = f"{cl}/{pos}/{family(c['t'])}/{o['obs']['outcome']}"
                 byfam[key] = byfam.get(key, 0) + 1
                 ctx.violation(cl, {"position": pos, "family": family(c["t"]), "term": "/".join(c["t"]), "shape": c["shape"], "k": c["k"],
-                                   "second": c["second"], "dflt": c["dflt"], "transport": o["_c"].get("transport"),
+                                   "newtype_over": c["t"][-1] if c["t"][-1] in ("nt_enum", "nt_dc") else "-", "second": c["second"], "dflt": c["dflt"], "pos": c["pos"], "transport": o["_c"].get("transport"),
                                    "outcome": o["obs"]["outcome"]},
                               {"observed": o["obs"], "concrete": o["_c"]})
         for o in obs:
